@@ -25,13 +25,23 @@ pub struct P {
     pub ymask: u32,
     /// query the root once before the concurrent phase
     pub warm: bool,
+    /// engine over DbBacked<MemKv>; after the concurrent phase the engine is
+    /// shut down cleanly and a new one on the same store must show the last
+    /// session's snapshot (what reached the store, in commit order, is the
+    /// same snapshot the live engine showed)
+    pub db: bool,
+    /// the first session is committed during set-up (after the warm-up
+    /// query): the concurrent phase starts with a root that has to be
+    /// recomputed, so a reader's recomputation can be in flight when the
+    /// next session is opened
+    pub pre_edit: bool,
 }
 
 impl P {
     pub fn to_json(&self) -> Value {
         json!({"shape": self.shape, "sessions": self.sessions,
                "drop_session": self.drop_session, "readers": self.readers,
-               "reads": self.reads, "ymask": self.ymask, "warm": self.warm})
+               "reads": self.reads, "ymask": self.ymask, "warm": self.warm, "db": self.db, "pre_edit": self.pre_edit})
     }
 
     pub fn from_json(v: &Value) -> Self {
@@ -43,6 +53,8 @@ impl P {
             reads: v["reads"].as_u64().unwrap() as u8,
             ymask: v["ymask"].as_u64().unwrap() as u32,
             warm: v["warm"].as_bool().unwrap(),
+            db: v["db"].as_bool().unwrap_or(false),
+            pre_edit: v["pre_edit"].as_bool().unwrap_or(false),
         }
     }
 }
@@ -89,7 +101,27 @@ pub fn scenario(p: P) -> Arc<dyn Fn() + Send + Sync> {
             xplore::exploring(false);
             let (prog, root) = program(p.shape);
             let sh = Shared::new(prog);
-            let eng = rig::new_mem_engine(&sh).await;
+            if p.db {
+                let store = crate::memkv::new_state(crate::memkv::Grouping::Never, false);
+                let eng = rig::new_db_engine(&sh, store.clone(), 2, 1).await;
+                body(p, eng, sh, root, Some(store)).await;
+            } else {
+                let eng = rig::new_mem_engine(&sh).await;
+                body(p, eng, sh, root, None).await;
+            }
+        });
+    })
+}
+
+async fn body<C: qbice::Config>(
+    p: P,
+    eng: Arc<qbice::Engine<C>>,
+    sh: Arc<Shared>,
+    root: Key,
+    store: Option<crate::memkv::Shared>,
+) {
+    {
+        {
             {
                 let mut s = eng.input_session().await;
                 s.set_input(QIn(0), 0).await;
@@ -100,12 +132,22 @@ pub fn scenario(p: P) -> Arc<dyn Fn() + Send + Sync> {
                 let te = eng.clone().tracked().await;
                 let _ = rig::query(&sh, &te, root).await;
             }
+            let first = if p.pre_edit {
+                let mut s = eng.input_session().await;
+                let (a, b, _) = snap(1);
+                s.set_input(QIn(0), a).await;
+                s.set_input(QIn(1), b).await;
+                s.commit().await;
+                2
+            } else {
+                1
+            };
             xplore::settle().await;
             ystore::set_yield_mask(p.ymask);
             xplore::exploring(true);
 
-            let started = Arc::new(AtomicUsize::new(0));
-            let committed = Arc::new(AtomicUsize::new(0));
+            let started = Arc::new(AtomicUsize::new(first - 1));
+            let committed = Arc::new(AtomicUsize::new(first - 1));
             let seen = Arc::new(std::sync::Mutex::new(Vec::<(u8, u8, u8, u8)>::new()));
             let mut handles = Vec::new();
 
@@ -113,7 +155,7 @@ pub fn scenario(p: P) -> Arc<dyn Fn() + Send + Sync> {
                 let (eng, started, committed, p) =
                     (eng.clone(), started.clone(), committed.clone(), p.clone());
                 handles.push(shuttle::future::spawn(async move {
-                    for k in 1..=p.sessions as usize {
+                    for k in first..=p.sessions as usize {
                         started.fetch_add(1, Ordering::SeqCst);
                         let mut s = eng.input_session().await;
                         // holding the session implies every earlier session
@@ -174,12 +216,20 @@ pub fn scenario(p: P) -> Arc<dyn Fn() + Send + Sync> {
 
             ystore::set_yield_mask(0);
             xplore::exploring(false);
-            let te = eng.clone().tracked().await;
-            let rv = rig::query(&sh, &te, root).await;
-            let a = rig::query(&sh, &te, Key::In(0)).await;
-            let b = rig::query(&sh, &te, Key::In(1)).await;
-            drop(te);
             let fin = snap(p.sessions as usize);
+            // (the db variant does not ask the live engine again: a query
+            // after the last session would recompute and publish once more
+            // and thereby repair whatever the store was missing)
+            let (a, b, rv) = if store.is_some() {
+                fin
+            } else {
+                let te = eng.clone().tracked().await;
+                let rv = rig::query(&sh, &te, root).await;
+                let a = rig::query(&sh, &te, Key::In(0)).await;
+                let b = rig::query(&sh, &te, Key::In(1)).await;
+                drop(te);
+                (a, b, rv)
+            };
             if (a, b, rv) != fin {
                 xplore::report_violation(format!(
                     "after all sessions: (A,B,root)=({a},{b},{rv}) expected \
@@ -191,8 +241,26 @@ pub fn scenario(p: P) -> Arc<dyn Fn() + Send + Sync> {
             sv.sort_unstable();
             xplore::observe(format!("{a}{b}{rv}{sv:?}"));
             drop(eng);
-        });
-    })
+            if let Some(store) = store {
+                // clean shutdown done: what a new engine finds on the store
+                let sh2 = Shared::new(sh.program.clone());
+                let eng2 = rig::new_db_engine(&sh2, store, 2, 1).await;
+                let te = eng2.clone().tracked().await;
+                let rv = rig::query(&sh2, &te, root).await;
+                let a = rig::query(&sh2, &te, Key::In(0)).await;
+                let b = rig::query(&sh2, &te, Key::In(1)).await;
+                drop(te);
+                if (a, b, rv) != fin {
+                    xplore::report_violation(format!(
+                        "after a clean shutdown and reopen: (A,B,root)=({a},{b},{rv}) expected {fin:?} \
+                         (the store does not hold the snapshot the live engine showed) stale_root={}",
+                        a == fin.0 && b == fin.1
+                    ));
+                }
+                drop(eng2);
+            }
+        }
+    }
 }
 
 fn params(thorough: bool) -> Vec<(P, usize)> {
@@ -211,6 +279,7 @@ fn params(thorough: bool) -> Vec<(P, usize)> {
                         reads: 1,
                         ymask: ystore::Y_ALL,
                         warm,
+                        db: false, pre_edit: false,
                     },
                     match (thorough, deep) {
                         (true, true) if shape == 0 && !drop_session => 3,
@@ -229,10 +298,34 @@ fn params(thorough: bool) -> Vec<(P, usize)> {
                         reads: 2,
                         ymask: ystore::Y_PUT,
                         warm,
+                        db: false, pre_edit: false,
                     },
                     if thorough { 2 } else { 1 },
                 ));
             }
+        }
+    }
+    // the same over DbBacked<MemKv>, with a clean shutdown + reopen at the end
+    // (the pipeline threads multiply the choice points: bound 1)
+    for shape in 0..3u8 {
+        for (sessions, readers, reads) in [(1u8, 1u8, 1u8), (2, 1, 2)] {
+            if !thorough && sessions == 2 && shape == 1 {
+                continue;
+            }
+            v.push((
+                P { shape, sessions, drop_session: false, readers, reads, ymask: ystore::Y_ALL, warm: true, db: true, pre_edit: false },
+                if thorough && sessions == 1 { 2 } else { 1 },
+            ));
+        }
+    }
+    // a recomputation in flight while the next session is being opened
+    // (first session committed during set-up), in memory and over the store
+    for shape in 0..3u8 {
+        for db in [false, true] {
+            v.push((
+                P { shape, sessions: 2, drop_session: false, readers: 1, reads: 1, ymask: ystore::Y_ALL, warm: true, db, pre_edit: true },
+                if db && !thorough { 1 } else { 2 },
+            ));
         }
     }
     if thorough {
@@ -245,6 +338,7 @@ fn params(thorough: bool) -> Vec<(P, usize)> {
                 reads: 2,
                 ymask: ystore::Y_PUT,
                 warm: true,
+                db: false, pre_edit: false,
             },
             2,
         ));
@@ -271,7 +365,11 @@ pub fn check() -> i32 {
                 input sessions (each writes A and B; commit or drop) + 1-2 \
                 reader tasks looping tracked()/query(root,A,B)/drop, on the \
                 real engine under the controlled scheduler; scheduling points \
-                at every storage access, lock, atomic and await. distinct = \
+                at every storage access, lock, atomic and await; variants: \
+                first session committed during set-up (a recomputation is in \
+                flight when the next session opens), engine over \
+                DbBacked<MemKv> with clean shutdown + reopen at the end (the \
+                reopened engine shows the last snapshot). distinct = \
                 distinct (step, runnable-set) signatures visited"
         .into();
     rep.assumptions = vec![
